@@ -108,12 +108,25 @@ class Item:
         hits = [h for h in hits if self.lines[self._line_index(h)[0]].origin[0] == "repo"]
         if len(hits) != 1:
             raise ExtractError(f"@fn {self.scope}: {len(hits)} candidates in {self.ex.describe()}")
-        b = find_top_level(m, "{;", hits[0])
+        b = self.repo_top_level(m, "{;", hits[0])
         if b < 0:
             raise ExtractError(f"@fn {self.scope}: no body")
         if m[b] == ";":
             return hits[0], b + 1
         return hits[0], match_bracket(m, b) + 1
+
+    def repo_top_level(self, m, chars, start):
+        """like find_top_level, but ignores characters on woven (non-repo) lines, so that braces inside an
+        already woven contract are never mistaken for the function body"""
+        text = self.joined()
+        # blank out non-repo lines
+        out, acc = [], 0
+        for l in self.lines:
+            seg = m[acc:acc + len(l.text)]
+            out.append(seg if l.origin[0] == "repo" else " " * len(seg))
+            acc += len(l.text) + 1
+        mm = "\n".join(out)
+        return find_top_level(mm, chars, start)
 
     def find_anchor(self, anchor, k=1, repo_only=True):
         """position (start, end) of the k-th occurrence of anchor (whitespace-insensitive)"""
@@ -155,7 +168,7 @@ class Item:
 
     def open_brace_after(self, pos):
         m = mask(self.joined())
-        b = find_top_level(m, "{", pos)
+        b = self.repo_top_level(m, "{", pos)
         if b < 0:
             raise ExtractError("no `{` after anchor")
         return b
@@ -195,7 +208,7 @@ def build_unit(unit_path, repo_root, twin=False):
     out = []
     meta = {"unit": os.path.basename(unit_path)[:-3], "safety": None, "default": None, "props": []}
     header = ["#![allow(unused_imports, dead_code, unused_variables, unused_mut, unused_parens, unreachable_code, unreachable_patterns, non_snake_case, unused_assignments, private_interfaces, unused_braces)]",
-              "use vstd::prelude::*;", "use std::collections::{HashMap, HashSet};", "use std::hash::Hash;", "use std::fmt::Debug;", "verus! {"]
+              "use vstd::prelude::*;", "use std::collections::{HashMap, HashSet};", "use std::hash::Hash;", "use std::fmt::Debug;", "use std::borrow::Borrow;", "verus! {"]
     for h in header:
         out.append(Line(h, ("gen", "header")))
     _process_lines(raw, unitfile, repo_root, out, log, meta, twin, set())
@@ -335,9 +348,9 @@ def _do_extract(raw, i, unitfile, repo_root, out, log, meta, twin=False):
     prefix_lines, suffix_lines = [], []
     # wrap fn extracted from inside an impl/trait in its header
     if container and kind != "impl":
-        for ck, cn in container:
+        for ci, (ck, cn) in enumerate(container):
             if ck == "impl":
-                hdr = impl_header(repo_root, rel, cn)
+                hdr = impl_header(repo_root, rel, cn, container[:ci] or None)
                 hdr = normalize.flatten_paths(hdr, log)
                 prefix_lines.append(Line(hdr + " {", ("gen", "impl header of " + ex.describe())))
                 suffix_lines.append(Line("}", ("gen", "impl close")))
@@ -376,7 +389,7 @@ def _do_extract(raw, i, unitfile, repo_root, out, log, meta, twin=False):
             f = re.compile(r"\bfn\b").search(mt, lo, hi)
             if not f:
                 raise ExtractError(f"@contract: no fn in {ex.describe()}")
-            b = find_top_level(mt, "{;", f.start())
+            b = item.repo_top_level(mt, "{;", f.start())
             if b < 0:
                 raise ExtractError(f"@contract: fn without end in {ex.describe()}")
             # a body-less trait method declaration: clauses go in front of the `;`
@@ -457,7 +470,7 @@ def _name_result(item, rname):
     txt = item.joined()
     mt = mask(txt)
     f = re.compile(r"\bfn\b").search(mt, lo, hi)
-    b = find_top_level(mt, "{;", f.start())
+    b = item.repo_top_level(mt, "{;", f.start())
     arrow = None
     # the `->` of the signature: the last top-level `->` before the body (closure types live inside brackets)
     depth = 0
@@ -488,7 +501,7 @@ def _n1(item, anchor, k, log):
     (a, e), _ = item.find_anchor(anchor, k)
     txt = item.joined()
     mt = mask(txt)
-    b = find_top_level(mt, "{", a)
+    b = item.repo_top_level(mt, "{", a)
     hdr = txt[a:b]
     mm = re.match(r"for\s*\(\s*(\w+)\s*,\s*(.+?)\)\s*in\s+(.*)\.enumerate\(\)\s*$", hdr.strip(), re.S)
     if not mm:
